@@ -27,7 +27,7 @@ class Constant(Distribution):
     """
 
     def __init__(self, value: float) -> None:
-        is_number(value)
+        is_number([value])
         self._value = value
 
     def __str__(self) -> str:
